@@ -156,7 +156,7 @@ def impl_block(rel, header_re):
     """Return the text between the braces of the (unique) impl whose header matches."""
     text = source(rel)
     m = find_unique(header_re, text, f"impl in {rel}")
-    b = first_brace_at_depth0(text, m.end())
+    b = first_brace_at_depth0(text, m.end() - 1 if text[m.end() - 1] == "{" else m.end())
     e = match_close(text, b)
     return text[b + 1:e]
 
@@ -389,6 +389,26 @@ def apply_rules(body, counts):
     return body
 
 
+def bind_tail_expr(body, fnq):
+    """`...; TAIL` -> `...; let vx_r = TAIL; vx_r` so that proof hints can follow the computation
+    of the result (annotation plumbing only: evaluation order and value are unchanged)."""
+    b = body.rstrip()
+    depth = 0
+    last = -1
+    i = 0
+    while i < len(b):
+        c = b[i]
+        if c in "({[":
+            i = match_close(b, i)
+        elif c == ";":
+            last = i
+        i += 1
+    tail = b[last + 1:]
+    if not tail.strip():
+        raise Inconclusive(f"unsupported construct: {fnq}: no tail expression to bind")
+    return b[:last + 1] + "\n        let vx_r = " + tail.strip() + ";\n        vx_r\n"
+
+
 # --------------------------------------------------------------------------- unit description
 
 class Clause:
@@ -419,7 +439,7 @@ class Hint:
 class Fn:
     def __init__(self, rel, impl, name, ret=None, requires=None, ensures=None, loops=None, hints=None,
                  rewrites=None, sig=None, props=None, external_body=False, no_unwind=False,
-                 params=None, generics=None, where=None, ret_type=None, emit_name=None, decreases=None, vis=None):
+                 params=None, generics=None, where=None, ret_type=None, emit_name=None, decreases=None, vis=None, bind_tail=False):
         self.rel, self.impl, self.name = rel, impl, name
         self.ret = ret
         self.requires, self.ensures = clauses(requires), clauses(ensures)
@@ -433,6 +453,7 @@ class Fn:
         self.decreases = decreases
         self.vis = vis
         self.no_unwind = no_unwind
+        self.bind_tail = bind_tail
 
 
 class Unit:
@@ -589,6 +610,8 @@ class Emitter:
                 raise Inconclusive(f"lost anchor: {fnq}: local rewrite /{pat}/ matched nothing")
             self.local_rewrites.append({"fn": fnq, "pattern": pat, "replacement": repl, "why": why, "count": k})
         body = self.type_rw(body)
+        if f.bind_tail:
+            body = bind_tail_expr(body, fnq)
         body = self.splice_hints(fnq, body, f.hints)
         pieces = self.splice_loops(fnq, body, f.loops)
         params = self.type_rw(f.params if f.params is not None else ft.params)
